@@ -179,3 +179,11 @@ func BytesEq(a, b []byte) bool {
 
 // FireTimerN fires the i-th pending timer (in creation order) after quiescing.
 func FireTimerN(i int) bool { time.Sleep(50 * time.Millisecond); return false }
+
+// IteByte selects without forking.
+func IteByte(c bool, a, b byte) byte {
+	if c {
+		return a
+	}
+	return b
+}
